@@ -87,6 +87,7 @@ def build(name, rng, batch=(), n=None, dtype=torch.float64):
     from linear_operator.operators.permutation_linear_operator import PermutationLinearOperator, TransposePermutationLinearOperator
     b = tuple(batch)
     D = O.DenseLinearOperator
+    name, _, variant = name.partition("@")
     if n is None:
         n = 4 if name in SIZE4 else 3
     psd = lambda *bb, m=n: ipsd(rng, *b, *bb, n=m, dtype=dtype)  # noqa: E731
@@ -102,6 +103,8 @@ def build(name, rng, batch=(), n=None, dtype=torch.float64):
         base = D(ipsd(rng, *((1,) * len(b)), n=n, dtype=dtype)[0])
         return O.BatchRepeatLinearOperator(base, torch.Size(b if b else (1,)))
     if name == "TriangularLinearOperator":
+        if variant == "upper":
+            return O.TriangularLinearOperator(psd()[1].mT.contiguous(), upper=True)
         return O.TriangularLinearOperator(psd()[1])
     if name == "DiagLinearOperator":
         return O.DiagLinearOperator(ipos(rng, *b, n, dtype=dtype))
@@ -141,6 +144,13 @@ def build(name, rng, batch=(), n=None, dtype=torch.float64):
         return O.LowRankRootLinearOperator(psd()[1])
     if name == "CatLinearOperator":
         A = psd()[0]
+        if variant.startswith("b"):          # concatenated along batch dim k, unequal pieces where the size allows
+            k = int(variant[1:])
+            return O.CatLinearOperator(D(A.narrow(k, 0, 1)), D(A.narrow(k, 1, A.shape[k] - 1)), dim=k)
+        if variant == "cols":
+            return O.CatLinearOperator(D(A[..., :, :1]), D(A[..., :, 1:]), dim=-1)
+        if variant == "3rows":
+            return O.CatLinearOperator(D(A[..., :1, :]), D(A[..., 1:2, :]), D(A[..., 2:, :]), dim=-2)
         return O.CatLinearOperator(D(A[..., :2, :]), D(A[..., 2:, :]), dim=-2)
     if name == "ConstantMulLinearOperator":
         return O.ConstantMulLinearOperator(D(psd()[0]), torch.tensor(2.0, dtype=dtype))
@@ -314,6 +324,8 @@ EXACT = {"torch.add", "torch.sub", "torch.mul", "torch.matmul", "torch.clone", "
          "torch.Tensor.add", "torch.Tensor.sub", "torch.Tensor.mul", "torch.Tensor.matmul"}
 SHAPE_ONLY = {"torch.clone", "torch.numel", "torch.transpose", "torch.permute", "torch.squeeze", "torch.unsqueeze", "torch.isclose"}
 # functions that reject by type / shape only (never by value): new rejections are reported
+SHAPE_FNS = {"torch.permute", "torch.transpose", "torch.sum", "torch.prod", "torch.squeeze", "torch.unsqueeze", "torch.diagonal",
+             "torch.clone", "torch.numel"}
 STRICT = {"torch.add", "torch.sub", "torch.mul", "torch.div", "torch.matmul", "torch.isclose", "torch.clone", "torch.numel",
           "torch.transpose", "torch.permute", "torch.squeeze", "torch.unsqueeze", "torch.sum", "torch.diagonal",
           "torch.Tensor.add", "torch.Tensor.sub", "torch.Tensor.mul", "torch.Tensor.matmul", "pyop"}
@@ -434,6 +446,9 @@ def operand_kinds(rng, cname, b, n, dt, seedbase):
         kinds["op-same"] = lambda: build(cname, random.Random(s2), b, dtype=dt)
         if cname in SUPER_PARTNER:
             kinds["op-super"] = lambda: build(SUPER_PARTNER[cname], random.Random(s3), b, n=n, dtype=dt)
+        kinds["op-tril"] = lambda: build("TriangularLinearOperator", random.Random(s3 + 1), b, n=n, dtype=dt)
+        kinds["op-triu"] = lambda: build("TriangularLinearOperator@upper", random.Random(s3 + 2), b, n=n, dtype=dt)
+        kinds["op-diag"] = lambda: build("DiagLinearOperator", random.Random(s3 + 3), b, n=n, dtype=dt)
     return kinds
 
 
@@ -466,6 +481,9 @@ def templates_first(fkey, b, n, dt, rng, kinds):
             res += [("0,-1", [0, -1], {}), ("-3,-1", [-3, -1], {})]
         if nb >= 2:
             res += [("0,1", [0, 1], {}), ("-4,-3", [-4, -3], {})]
+        if nb >= 3:
+            res += [(f"{i},{j}", [i, j], {}) for i in range(nb) for j in range(nb) if i != j and (i, j) != (0, 1)]
+            res += [(f"{i - nb - 2},{j}", [i - nb - 2, j], {}) for i, j in ((0, 2), (2, 1))]
         return res
     if fkey == "torch.permute":
         ident = tuple(range(nb + 2))
@@ -475,7 +493,23 @@ def templates_first(fkey, b, n, dt, rng, kinds):
             res += [("batch-perm", [(1, 0) + ident[2:]], {}), ("batch-perm-neg", [(-3, -4, -2, -1)], {})]
         if nb:
             res += [("batch-into-matrix", [(nb,) + ident[:nb] + (nb + 1,)], {})]
+        if nb >= 3:
+            import itertools
+            for perm in itertools.permutations(range(nb)):
+                if perm != tuple(range(nb)):
+                    res += [("perm" + "".join(map(str, perm)), [perm + ident[nb:]], {})]
+            res += [("perm-cyclic-neg", [tuple(x - nb - 2 for x in (1, 2, 0)) + (-2, -1)], {}),
+                    ("perm-cyclic-varargs", [1, 2, 0, nb, nb + 1], {}), ("perm-cyclic+T", [(2, 0, 1) + (nb + 1, nb)], {})]
         return res
+    if fkey == "torch.squeeze" and nb >= 3:
+        return [(str(i), [i], {}) for i in range(nb + 2)] + [(str(i - nb - 2), [i - nb - 2], {}) for i in range(nb)] + [("none", [], {})]
+    if fkey == "torch.unsqueeze" and nb >= 3:
+        return [(str(i), [i], {}) for i in range(nb + 1)] + [(str(i - nb - 3), [i - nb - 3], {}) for i in range(nb + 1)]
+    if fkey == "torch.sum" and nb >= 3:
+        return [(str(i), [i], {}) for i in range(nb + 2)] + [(str(i - nb - 2), [i - nb - 2], {}) for i in range(nb)] + \
+               [("dim=1", [], {"dim": 1}), ("all", [], {})]
+    if fkey == "torch.prod" and nb >= 3:
+        return [(str(i), [i], {}) for i in range(nb)] + [(str(i - nb - 2), [i - nb - 2], {}) for i in range(nb)]
     if fkey == "torch.squeeze":
         return [("0", [0], {}), ("-1", [-1], {}), ("none", [], {}), ("dim=0", [], {"dim": 0}), ("pos-last", [nb + 1], {}),
                 ("neg-first", [-(nb + 2)], {})]
@@ -511,17 +545,17 @@ def templates_first(fkey, b, n, dt, rng, kinds):
         res = [("mat", [M], {}), ("vec", [v], {}), ("square", [K("tensor")], {}), ("0d", [K("0d")], {})]
         if nb:
             res += [("mat-bcast", [Mb], {})]
-        res += [(k, [K(k)], {}) for k in ("op-unrelated", "op-same", "op-super") if k in kinds]
+        res += [(k, [K(k)], {}) for k in ("op-unrelated", "op-same", "op-super", "op-tril", "op-triu", "op-diag") if k in kinds]
         res += [("kw-other", [], {"other": K("tensor")}), ("out", [K("tensor")], {"out": K("outbuf")})]
         return res
     if fkey in ("torch.add", "torch.sub"):
-        res = [(k, [K(k)], {}) for k in kinds]
+        res = [(k, [K(k)], {}) for k in kinds if k not in MATMUL_ONLY]
         res += [(k + "/alpha", [K(k)], {"alpha": 2}) for k in ("tensor", "op-unrelated", "op-same", "op-super") if k in kinds]
         res += [("tensor/alpha-float", [K("tensor")], {"alpha": -1.5}), ("kw-other", [], {"other": K("tensor")}),
                 ("kw-other/alpha", [], {"other": K("tensor"), "alpha": 2}), ("out", [K("tensor")], {"out": K("outbuf")})]
         return res
     if fkey == "torch.mul":
-        return [(k, [K(k)], {}) for k in kinds] + [("kw-other", [], {"other": K("tensor")}), ("kw-other-0d", [], {"other": K("0d")}),
+        return [(k, [K(k)], {}) for k in kinds if k not in MATMUL_ONLY] + [("kw-other", [], {"other": K("tensor")}), ("kw-other-0d", [], {"other": K("0d")}),
                                                     ("out", [K("tensor")], {"out": K("outbuf")})]
     if fkey == "torch.div":
         D = inz(rng, *b, n, n, dtype=dt)
@@ -543,7 +577,7 @@ def templates_second(fkey, b, n, dt, rng, kinds):
             res += [("mat-bcast", imat(rng, 2, n, dtype=dt), {})]
         if fkey == "torch.matmul":
             res += [("0d", K("0d"), {}), ("tsub", ("tsub",), {})]
-            res += [(k, K(k), {}) for k in ("op-unrelated", "op-same", "op-super") if k in kinds]
+            res += [(k, K(k), {}) for k in ("op-unrelated", "op-same", "op-super", "op-tril", "op-triu", "op-diag") if k in kinds]
             res += [("kw-op", K("tensor"), {"other": SELF}), ("kw-input+op", None, {"input": K("tensor"), "other": SELF})]
         return res
     if fkey == "torch.isclose":
@@ -556,7 +590,7 @@ def templates_second(fkey, b, n, dt, rng, kinds):
         if fkey in ("torch.Tensor.add", "torch.Tensor.sub"):
             res += [("tensor/alpha", K("tensor"), {"alpha": 2})]
         return res
-    res = [(k, K(k), {}) for k in kinds]
+    res = [(k, K(k), {}) for k in kinds if k not in MATMUL_ONLY]
     res += [("tsub", ("tsub",), {}), ("foreign", ("foreign",), {})]
     if fkey in ("torch.add", "torch.sub"):
         res += [(k + "/alpha", K(k), {"alpha": 2}) for k in ("tensor", "op-super", "0d") if k in kinds]
@@ -565,6 +599,7 @@ def templates_second(fkey, b, n, dt, rng, kinds):
     return res
 
 
+MATMUL_ONLY = {"op-tril", "op-triu", "op-diag"}
 SELF = ("self",)   # the operator under test, passed by keyword
 
 PYOPS = [("T_matmul_op", "torch.Tensor.matmul", lambda T, op: T @ op), ("T_add_op", "torch.Tensor.add", lambda T, op: T + op),
@@ -607,8 +642,9 @@ def from_torch_function(e):
 class Group:
     """All cases for one (class, batch, dtype) with one seed."""
 
-    def __init__(self, chk, tab, cname, batch, dt, gseed):
+    def __init__(self, chk, tab, cname, batch, dt, gseed, restricted=False):
         self.chk, self.tab, self.cname, self.batch, self.dt, self.gseed = chk, tab, cname, tuple(batch), dt, gseed
+        self.restricted = bool(restricted)   # shape functions only (groups with three batch dims)
         self.first = dict(tab["first"])
         self.second = dict(tab["second"])
         self.lines = []   # (driver line, expected impl string, cell, payload, kind)
@@ -646,7 +682,7 @@ class Group:
         return f"{fkey}/{posname}/{self.cname}/{label}/{'b+' if self.b else 'b0'}{'' if self.dt == torch.float64 else '|f32'}"
 
     def payload(self, **kw):
-        d = {"class": self.cname, "batch": list(self.batch), "dtype": str(self.dt), "gseed": self.gseed}
+        d = {"class": self.cname, "batch": list(self.batch), "dtype": str(self.dt), "gseed": self.gseed, "restricted": self.restricted}
         d.update(kw)
         return d
 
@@ -742,7 +778,9 @@ class Group:
         if r_dense[0] == "ok":
             if r_impl[0] == "ok":
                 d = compare_dense(fkey, r_impl[1], r_dense[1], self.A, self.opdt)
-                if d and fkey in METHOD_LEVEL:
+                if d and fkey == "torch.prod" and d[0] == "shape":
+                    problems.append(("vs-dense:shape", d[1]))
+                elif d and fkey in METHOD_LEVEL:
                     chk.count("method-vs-dense-differs:" + fkey)
                 elif d:
                     problems.append(("vs-dense:" + d[0], d[1]))
@@ -769,6 +807,10 @@ class Group:
             ok = False
             chk.violation(cell + "/" + aspect, f"{fkey}({', '.join(tokens)}{', ' + str(kwshow) if kwshow else ''}): {what}",
                           self.payload(fkey=fkey, pos=pos, label=label))
+        # two-step dispatch: registered one-operand functions applied to an operator-valued result of a two-operand call
+        if (ok and r_impl[0] == "ok" and r_dense[0] == "ok" and is_op(r_impl[1]) and fkey in BINARY and fkey != "torch.isclose"
+                and isinstance(r_dense[1], torch.Tensor) and r_dense[1].dim() >= 2 and r_dense[1].shape[-1] == r_dense[1].shape[-2]):
+            self.two_step(cell, fkey, tokens, r_impl[1], r_dense[1].as_subclass(torch.Tensor), self.payload(fkey=fkey, pos=pos, label=label))
         # value line for the Lean denotational layer (unbatched, matrix operands, exact data)
         if (not self.batch and r_impl[0] == "ok" and len(args1) == 2 and fkey in BINARY and fkey != "torch.isclose" and fkey != "torch.div"
                 and all(is_op(x) or (isinstance(x, torch.Tensor) and x.dim() == 2 and x.shape[0] == x.shape[1] == self.n) for x in args1)
@@ -783,6 +825,56 @@ class Group:
                 self.lines.append((vline, fmt(got), cell + "/value-model", self.payload(fkey=fkey, pos=pos, label=label), "val"))
         return ok
 
+    def two_step(self, cell, fkey, tokens, res, D, payload):
+        """`res` (operator) is the dispatched result, `D` what torch gives on dense operands (already found equal).
+        Apply structure-using registered functions to `res` through torch.* and compare with torch on `D`."""
+        from linear_operator.operators.triangular_linear_operator import _TriangularLinearOperatorBase
+        chk = self.chk
+        n = D.shape[-1]
+        steps = [("diagonal", lambda x: torch.diagonal(x, dim1=-2, dim2=-1), 0.0), ("transpose", lambda x: torch.transpose(x, -1, -2), 0.0),
+                 ("sum-1", lambda x: torch.sum(x, -1), 0.0), ("sum-2", lambda x: torch.sum(x, -2), 0.0)]
+        Dd = D.double()
+        finite = bool(torch.isfinite(Dd).all())
+        if finite and n > 0:
+            sv = torch.linalg.svdvals(Dd)
+            wellcond = bool((sv[..., -1] > 1e-3).all() and (sv[..., 0] / sv[..., -1].clamp_min(1e-300) < 1e4).all())
+            lower = bool(torch.equal(Dd, torch.tril(Dd)))
+            upper = bool(torch.equal(Dd, torch.triu(Dd)))
+            tri = isinstance(res, _TriangularLinearOperatorBase) and (lower or upper)
+            sym = bool(torch.equal(Dd, Dd.mT))
+            spd = sym and wellcond and bool((torch.linalg.eigvalsh(Dd) > 0.5).all())
+            B = torch.tensor([((7 * i + 3 * j) % 5) - 2.0 for i in range(n) for j in range(2)], dtype=D.dtype).reshape(n, 2)
+            tol = 1e-6 if D.dtype == torch.float64 else 5e-3
+            if wellcond and (tri or spd):
+                kind = "tri" if tri else "spd"
+                steps += [("solve", lambda x: torch.linalg.solve(x, B), tol), ("inverse", lambda x: torch.inverse(x), tol)]
+                if spd or bool((torch.diagonal(Dd, dim1=-2, dim2=-1) > 0).all()):
+                    steps += [("logdet", lambda x: torch.logdet(x), tol)]
+                if tri:
+                    up = upper and not lower
+                    steps += [("solve_triangular", lambda x: torch.linalg.solve_triangular(x, B, upper=up), tol)]
+                if spd:
+                    steps += [("cholesky", lambda x: torch.linalg.cholesky(x), tol)]
+                chk.count("two-step-numeric:" + kind)
+        for name, g, tol in steps:
+            r2 = outcome(lambda: g(res))
+            d2 = outcome(lambda: g(D))
+            chk.case(f"{cell}/then:{name} seed={self.gseed}", nontrivial=r2[0] == "ok", sample=False)
+            chk.count("two-step:" + name)
+            if d2[0] != "ok":
+                continue
+            if r2[0] != "ok":
+                chk.count("two-step-rejected:" + name + ":" + type(r2[1]).__name__)
+                continue
+            scale = max(1.0, float(d2[2][1].double().abs().max())) if d2[2][0] in "TO" and d2[2][1].numel() else 1.0
+            d = same(r2[2], d2[2], tol * scale if tol else 1e-7 * scale, check_kind=False)
+            if d:
+                aspect = "shape" if d.startswith(("shape", "structure", "tensor vs")) else ("dtype" if d.startswith("dtype") else "value")
+                chk.violation(f"{cell}/then:{name}/vs-dense:{aspect}",
+                              f"{name}({fkey}({', '.join(tokens)})) [result class {type(res).__name__}]: {d}", payload)
+            else:
+                chk.count("two-step-agree")
+
     @staticmethod
     def short(r):
         return "returns" if r[0] == "ok" else f"raises {type(r[1]).__name__}: {str(r[1])[:80]}"
@@ -793,6 +885,8 @@ class Group:
         tab = self.tab
         rng = self.trng
         for fkey, meth in tab["first"]:
+            if self.restricted and fkey not in SHAPE_FNS:
+                continue
             fn = c15_dispatch.resolve_torch_name(fkey)
             for label, extra, kwargs in templates_first(fkey, self.b, self.n, self.opdt, rng, self.kinds):
                 if any(isinstance(s, tuple) and s[:1] == ("kind",) and s[1] not in self.kinds and s[1] not in self.kinds_extra
@@ -801,7 +895,7 @@ class Group:
                 if only and (fkey, 0, label) != only:
                     continue
                 self.run_call(fkey, fn, 0, label, [None] + list(extra), kwargs, "first")
-        for fkey, meth in tab["second"]:
+        for fkey, meth in ([] if self.restricted else tab["second"]):
             fn = c15_dispatch.resolve_torch_name(fkey)
             for label, x, kwargs in templates_second(fkey, self.b, self.n, self.opdt, rng, self.kinds):
                 if isinstance(x, tuple) and x[:1] == ("kind",) and x[1] not in self.kinds and x[1] not in self.kinds_extra:
@@ -816,7 +910,7 @@ class Group:
                 else:
                     self.run_call(fkey, fn, 1, label, [x, None], kwargs, "second")
         # python operators
-        for entry in PYOPS:
+        for entry in ([] if self.restricted else PYOPS):
             label, fkey, f = entry[:3]
             if only and (label, "pyop", label) != only:
                 continue
@@ -828,7 +922,7 @@ class Group:
             else:
                 self.run_pyop(label, fkey, f)
         # unregistered functions (on the unbatched and the (2,)-batched instance of every class; quick: unbatched only)
-        skip_unreg = not only and ((self.chk.tier == "quick" and self.batch) or len(self.batch) > 1 or self.batch == (self.n,))
+        skip_unreg = self.restricted or not only and ((self.chk.tier == "quick" and self.batch) or len(self.batch) > 1 or self.batch == (self.n,))
         for name, arity in ([] if skip_unreg else UNREGISTERED):
             if only and (name, "unreg", str(arity)) != only:
                 continue
@@ -979,6 +1073,17 @@ def plan(chk, classes):
         groups.append((c, (2,), torch.float64, chk.rng.randrange(2 ** 31)))
         groups.append((c, (n,), torch.float64, chk.rng.randrange(2 ** 31)))     # batch size == matrix size
         groups.append((c, (2, 3), torch.float64, chk.rng.randrange(2 ** 31)))   # two batch dims
+    # structural variants
+    for c, bs in (("CatLinearOperator@b0", [(2,), (3,), (2, 3)]), ("CatLinearOperator@b1", [(2, 3)]), ("CatLinearOperator@cols", [(), (2,)]),
+                  ("CatLinearOperator@3rows", [(), (2,)]), ("TriangularLinearOperator@upper", [(), (2,), (3,)])):
+        for b in bs:
+            groups.append((c, b, torch.float64, chk.rng.randrange(2 ** 31)))
+    # three batch dims of pairwise different sizes (and one with a size-1 dim): shape functions with every batch permutation / dim
+    for c in classes + ["CatLinearOperator@b0", "CatLinearOperator@b1", "CatLinearOperator@b2", "CatLinearOperator@cols"]:
+        for b in ((2, 5, 6), (3, 1, 2)):
+            if "@b" in c and b[int(c[-1])] < 2:
+                continue
+            groups.append((c, b, torch.float64, chk.rng.randrange(2 ** 31), True))
     if chk.tier == "thorough":
         for c in classes:
             groups.append((c, (), torch.float32, chk.rng.randrange(2 ** 31)))
@@ -1016,8 +1121,8 @@ def run(chk, only_group=None):
     lines = mro_lines(tab)
     classes = concrete_classes()
     groups = plan(chk, classes) if only_group is None else [only_group]
-    for cname, batch, dt, gseed in groups:
-        g = Group(chk, tab, cname, batch, dt, gseed)
+    for cname, batch, dt, gseed, *rest in groups:
+        g = Group(chk, tab, cname, batch, dt, gseed, *rest)
         g.rt_first, g.rt_second = L._HANDLED_FUNCTIONS, L._HANDLED_SECOND_ARG_FUNCTIONS
         try:
             g.run()
@@ -1035,7 +1140,7 @@ def replay(chk, payload):
     dt = torch.float32 if "32" in p["dtype"] else torch.float64
     tab = c15_dispatch.generate()
     from linear_operator.operators import _linear_operator as L
-    g = Group(chk, tab, p["class"], tuple(p["batch"]), dt, p["gseed"])
+    g = Group(chk, tab, p["class"], tuple(p["batch"]), dt, p["gseed"], p.get("restricted", False))
     g.rt_first, g.rt_second = L._HANDLED_FUNCTIONS, L._HANDLED_SECOND_ARG_FUNCTIONS
     if "fkey" in p:
         only = (p["fkey"], p["pos"], p["label"])
